@@ -38,6 +38,16 @@ def sh(cmd, cwd, timeout, mem_gb, log):
     return p.returncode, out.decode("utf-8", "replace"), err.decode("utf-8", "replace")
 
 
+TAG_RE = re.compile(r"^V:\w+\[([^\]]*)\]")
+
+
+def tags_of(desc):
+    m = TAG_RE.match(desc or "")
+    if not m:
+        return None
+    return [t.strip() for t in m.group(1).split(",") if t.strip()]
+
+
 def classify(prop):
     """map a CBMC property to an obligation class"""
     name = prop.get("property", "")
@@ -179,11 +189,37 @@ def variant_dir(scratch, ob):
     return d, injected
 
 
+def expand_unwindset(uw, wd, log):
+    """keys of the form "func.*" give one bound for every loop CBMC finds in func (macro-generated do{}while(0)
+    loops shift CBMC's loop numbers, so bounds are given per function, never globally)"""
+    rc, out, err = sh(["cbmc", "--show-loops", "--json-ui", "a.gb"], wd, 120, 4, log)
+    if rc is None:
+        return None
+    try:
+        items = json.loads(out)
+    except Exception:
+        return None
+    names = []
+    for it in items:
+        for l in it.get("loops", []) if isinstance(it, dict) else []:
+            names.append(l["name"])
+    res = {}
+    for k, v in uw.items():
+        if k.endswith(".*"):
+            f = k[:-2]
+            for n in names:
+                if n.rsplit(".", 1)[0] == f:
+                    res[n] = max(res.get(n, 0), v)
+        else:
+            res[k] = v
+    return res
+
+
 def resolve(v, tier):
     return v(tier) if callable(v) else v
 
 
-def run_obligation(ob, scratch, tier, kf_defines):
+def run_obligation(ob, scratch, tier, kf_defines, prop=None):
     """returns a result dict: status in {discharged, violated, undecided}, per-class counts, failures, timings"""
     t0 = time.time()
     res = {"id": ob["id"], "route": ob["route"], "status": "undecided", "reason": "", "classes": {}, "failures": [],
@@ -244,6 +280,14 @@ def run_obligation(ob, scratch, tier, kf_defines):
         return res
     binf = "a.gb"
     uw = resolve(ob.get("unwindset", {}), tier)
+    if any(k.endswith(".*") for k in uw):
+        uw = expand_unwindset(uw, wd, log)
+        if uw is None:
+            res["reason"] = "cbmc --show-loops failed"
+            return res
+        res["unwindset_expanded"] = uw
+        ob = dict(ob)
+        ob["unwindset"] = uw
     uwflags = []
     if uw:
         uwflags = ["--unwindset", ",".join("%s:%d" % (k, v) for k, v in sorted(uw.items()))]
@@ -324,6 +368,9 @@ def run_obligation(ob, scratch, tier, kf_defines):
     if any("ignoring" in m and ("forall" in m or "exists" in m or "quantif" in m) for m in msgs):
         res["reason"] = "solver ignored a quantifier"
         return res
+    if any(("out of memory" in m.lower()) or ("VERIFICATION ERROR" in m) for m in msgs):
+        res["reason"] = "cbmc: " + " | ".join(m for m in msgs[-4:])
+        return res
     if results is None:
         res["reason"] = "cbmc gave no result list (rc=%s): %s" % (rc, " | ".join(msgs[-6:]) + err[-400:])
         return res
@@ -341,9 +388,18 @@ def run_obligation(ob, scratch, tier, kf_defines):
                 res["samples"].append({"obligation": ob["id"], "property": p.get("property"), "class": c,
                                        "description": p.get("description"),
                                        "location": _loc(p.get("sourceLocation"))})
+        elif st != "FAILURE":
+            res.setdefault("unknown", []).append("%s: %s" % (p.get("property"), st))
         else:
             f = {"property": p.get("property"), "description": p.get("description"), "class": c, "status": st,
                  "location": _loc(p.get("sourceLocation"))}
+            tg = tags_of(p.get("description"))
+            if tg is None:   # verifier-generated check (memory safety, arithmetic, frame, callee precondition)
+                tg = ob.get("safety_props", ob["props"])
+            f["tags"] = tg
+            if prop is not None and c not in ("unwind", "known-finding") and prop not in tg:
+                res.setdefault("other_property_failures", []).append(f)
+                continue
             if p.get("trace"):
                 f["inputs"] = extract_inputs(p["trace"], entry)
                 f["trace_tail"] = _trace_tail(p["trace"])
@@ -354,6 +410,10 @@ def run_obligation(ob, scratch, tier, kf_defines):
     res["kf_total"] = res["classes"].get("known-finding", {}).get("total", 0)
     res["failures"] = real
     minp = ob.get("min_props", 1)
+    if res.get("unknown"):
+        res["reason"] = "cbmc left %d properties without verdict: %s" % (len(res["unknown"]), "; ".join(res["unknown"][:3]))
+        res["failures"] = []
+        return res
     if not real:
         if res["n_props"] < minp:
             res["reason"] = "vacuity guard: only %d obligations generated, expected >= %d" % (res["n_props"], minp)
@@ -364,7 +424,7 @@ def run_obligation(ob, scratch, tier, kf_defines):
             res["status"] = "discharged"
     else:
         if all(f["class"] == "unwind" for f in real):
-            res["reason"] = "unwinding/bound assertion failed: " + "; ".join(f["description"] for f in real[:4])
+            res["reason"] = "unwinding/bound assertion failed: " + "; ".join("%s (%s)" % (f["description"], f["property"]) for f in real[:4])
         else:
             res["status"] = "violated"
             res["failures"] = [f for f in real if f["class"] != "unwind"] + [f for f in real if f["class"] == "unwind"]
@@ -378,7 +438,7 @@ def _loc(sl):
     return "%s:%s:%s" % (os.path.basename(sl.get("file", "")), sl.get("function", ""), sl.get("line", ""))
 
 
-def _trace_tail(trace, n=40):
+def _trace_tail(trace, n=120):
     out = []
     for st in trace:
         t = st.get("stepType")
@@ -422,7 +482,7 @@ def run_cover(ob, scratch, tier, res):
             return None, "goto-instrument (cover mode) failed"
         binf = "c2.gb"
     uw = resolve(ob.get("unwindset", {}), tier)
-    cmd = ["cbmc", binf, "--json-ui", "--no-standard-checks", "--no-malloc-may-fail", "--sat-solver", "cadical"]
+    cmd = ["cbmc", binf, "--json-ui", "--no-standard-checks", "--no-malloc-may-fail", "--sat-solver", "cadical", "--slice-formula"]
     if uw:
         cmd += ["--unwindset", ",".join("%s:%d" % (k, v) for k, v in sorted(uw.items()))]
     if ob.get("unwind_default") is not None:
